@@ -14,7 +14,8 @@ RULE = ("per_class: every one of the 26 operation classes x generated field valu
         "and after a registry change), tag and annotation fields, relation type kept and reference re-pointed to "
         "lookup[ref] (dropped when absent), acquisition registry re-targeted through the lookup, no shared link object. "
         "programs: Hypothesis build programs over all kinds (nesting <= 2, shared links, repetition counts) copied "
-        "explicitly (circuit_structure.copy(), with or without a prior listing) and implicitly (add(sub)); oracle: "
+        "explicitly (circuit_structure.copy(), taken from the circuit as built, after a listing, after flatten() or after "
+        "apply_modifiers()) and implicitly (add(sub)); oracle: "
         "listing signatures equal position by position, schedule relative to own start equal, every internal relation "
         "of the copy has the same type and points at the copy listed at the index of the original's reference, no "
         "operation object shared; then one side is mutated (add operation / apply modifiers / flatten) and the other "
@@ -142,7 +143,7 @@ def strat_programs():
                    p_share=15, max_total_leaves=40)
     return st.fixed_dictionaries({
         "program": P.program_strategy(cfg),
-        "pre_list": st.booleans(),
+        "pre": st.sampled_from(["none", "list", "flatten", "unroll", "list"]),
         "mutate": st.sampled_from(["add", "unroll", "flatten", "none"]),
         "side": st.sampled_from(["copy", "original"]),
     })
@@ -217,6 +218,8 @@ def compare_copy(ctx, orig_struct, copy_struct, what, facts):
 
 
 def body_programs(case, ctx):
+    case = dict(case)
+    case.setdefault("pre", "list" if case.pop("pre_list", False) else "none")     # older replay files
     from qce_circuit.structure.circuit_operations import Wait
     from qce_circuit.structure.registry_duration import FixedDurationStrategy
     program = case["program"]
@@ -225,22 +228,29 @@ def body_programs(case, ctx):
     nonadjacent = any(it.get("rel") and it["rel"][1] < p[-1] - 1 for p, it in P.iter_items(program["top"]) if not P.is_sub(it))
     nondefault = any(k in NONDEFAULT_FIELD_KINDS for k in st["kinds"])
     ctx.case(case, nontrivial=nonadjacent and nondefault, classes=[
-        f"nonadjacent_rel={nonadjacent}", f"nesting={st['nesting']}", f"pre_list={case['pre_list']}",
+        f"nonadjacent_rel={nonadjacent}", f"nesting={st['nesting']}", f"pre={case['pre']}",
         f"mutate={case['mutate']}", f"side={case['side']}", f"reps={st['n_reps_gt1'] > 0}", f"shared={st['shared_link']}"])
-    facts = {"kinds": st["kinds"], "pre_list": case["pre_list"]}
+    facts = {"kinds": st["kinds"], "pre": case["pre"]}
     with P.global_override(g):
         b = None
         with ctx.lib("build"):
             b = P.build(program)
         if b is None:
             return
-        if case["pre_list"]:
+        # what happened to the circuit before it is copied: nothing / a listing / flatten() / apply_modifiers()
+        if case["pre"] == "list":
             with ctx.lib("list"):
                 b.circuit.operations
         # implicit copies made by add(sub): compare each top-level sub DeclarativeCircuit with the nested copy
         for i, it in enumerate(program["top"]["items"]):
             if P.is_sub(it):
                 compare_copy(ctx, b.passed[(i,)].circuit_structure, b.handles[(i,)], f"add(sub) item {i}", facts)
+        if case["pre"] in ("flatten", "unroll"):
+            with ctx.lib(case["pre"]):
+                if case["pre"] == "flatten":
+                    b.circuit.flatten()
+                else:
+                    b.circuit.apply_modifiers()
         # explicit copy
         orig = b.circuit.circuit_structure
         cp = None
